@@ -51,13 +51,13 @@ PLAN = {
     "C04": dict(
         title="Training is ordered mini-batch gradient-sum descent",
         level="proof",
-        verus=["C04_learn_epoch.rs"],
+        verus=["C04_learn_epoch.rs", "C03_network_update.rs"],
         kani=True,
         native_checks=[("learn.schedule", "bounded native grid: learn() against the statement executed literally (ordered groups, one step per group with step number = epoch, loss = mean of group means), 180 (N, B, E, optimizer) instances")],
         undecided_clauses=[
             "the forward pass, objective, backward pass and parameter update are abstract functions of the network state in the epoch unit (what they "
-            "compute is C02 / C06 / C01 / C03); that Network::update applies exactly one optimizer step per parameter tensor is read (dispatch over layer kinds), "
-            "the element step itself is C03's",
+            "compute is C02 / C06 / C01 / C03); that Network::update applies exactly one optimizer step per parameter tensor with the given step number is proved per layer "
+            "(unit network.update.dispatch), the element step itself is C03's; the `iter_mut().rev().enumerate().for_each` around that closure is trusted adapter semantics",
             "rayon's `batch.into_par_iter().map(..).collect()` is replaced by a sequential in-order loop (R25): that the parallel map keeps input order is "
             "assumed (C05's subject, not applicable); the consuming `for (wg, wb, loss) in results` is rewritten to `remove(0)` steps (R29)",
             "the group list: `par_chunks(batch)` = consecutive groups of B in order, last one shorter - checked with std's `chunks` on N <= 4, B <= 5 by a bounded "
@@ -82,9 +82,11 @@ PLAN = {
     "C03": dict(
         title="Optimizer steps follow the documented update rules for every history",
         level="proof",
-        verus=["C03_optimizers.rs"],
+        verus=["C03_optimizers.rs", "C03_network_update.rs"],
         kani=True,
         undecided_clauses=[
+            "which (layer, filter, bias) slot each parameter tensor is stepped in is proved for Network::update (unit network.update.dispatch: one step per parameter tensor, "
+            "slot = (reverse layer index, filter, bias flag)); that distinct slots do not share state is the Kani slot harnesses' (SGD-momentum, Adam)",
             "parameters never become NaN/inf for moderate magnitudes (needs IEEE value reasoning through powi/powf/sqrt/div; "
             "one Adam element over the full float domain did not finish in CBMC; Verus has no float theory)"],
     ),
